@@ -629,11 +629,14 @@ def _match(t, p, b):
                 b.update(saved)
                 return False
         return True
-    if pk != t[0]:
-        if pk == 'global' and t[0] == 'global':
-            pass
-        else:
+    if pk == 'attr' and t[0] == 'global':
+        # pattern  X.name  against a folded dotted global  a.b.X.name
+        d = t[1]
+        if not d.endswith('.' + p[2]):
             return False
+        return _match(('global', d[:-(len(p[2]) + 1)]), p[1], b)
+    if pk != t[0]:
+        return False
     if pk == 'global':
         return t[1] == p[1] or t[1].endswith('.' + p[1])
     if pk == 'const':
